@@ -220,6 +220,24 @@ def r18b(ctx):
     ctx.instance("R18b", f"{te.file}:DateTime", f"emits Z={emits_z}; decode uses fromisoformat={handles}, explicit Z branch={zbranch}", ok=ok)
     if not ok:
         ctx.report("R18b", td, td.node, "Z not handled", "DateTime.encode writes 'Z' but DateTime.decode has no way to read it")
+    # the decoders hand the text to fromisoformat as it was given: that call is what rejects strings outside the lexical form and what reads fraction and
+    # offset exactly; a clean-up pass in front of it (cut the fraction, expand 'Z', partition on '+') changes valid strings it did not foresee (a '-hh:mm'
+    # offset after a fraction) and lets invalid ones through.  Fallbacks after a refusal (the 3.9/3.10 shim) are not concerned.
+    for q in ("DateTime.decode", "Date.decode"):
+        fd = repo.func(q)
+        par = [a.arg for a in fd.node.args.args if a.arg not in ("self", "cls")]
+        par = par[0] if par else None
+        firsts = [c for c in walk_no_nested(fd.node) if isinstance(c, ast.Call) and isinstance(c.func, ast.Attribute) and c.func.attr == "fromisoformat"]
+        rebinds = [a for a in walk_no_nested(fd.node) if isinstance(a, (ast.Assign, ast.AugAssign, ast.AnnAssign)) and any(
+            isinstance(t, ast.Name) and t.id == par for t in (a.targets if isinstance(a, ast.Assign) else [a.target]))]
+        first = min(firsts, key=lambda c: (c.lineno, c.col_offset)) if firsts else None
+        ok = first is not None and len(first.args) == 1 and isinstance(first.args[0], ast.Name) and first.args[0].id == par and not rebinds
+        ctx.instance("R18b", f"{fd.file}:{fd.ident}", f"first attempt is fromisoformat({par}) on the text as given", ok=ok, nontrivial=True, line=fd.node.lineno)
+        if not ok:
+            at = rebinds[0] if rebinds else (first if first is not None else fd.node)
+            ctx.report("R18b", fd, at, f"{q}: " + (norm(at, 50) if at is not fd.node else "no fromisoformat call"),
+                       f"{q} does not try fromisoformat() on the string as given first (`{norm(at, 50)}`): a rewriting pass in front of the strict parser changes valid lexical forms "
+                       f"it did not foresee (a negative offset after fractional seconds loses its zone) and accepts strings the parser would have rejected")
     # suffix replaced has the length that is cut
     for n in walk_no_nested(te.node):
         if isinstance(n, ast.If) and isinstance(n.test, ast.Call) and isinstance(n.test.func, ast.Attribute) and n.test.func.attr == "endswith":
@@ -553,6 +571,13 @@ from ..selftest import Seed, unparse_seed  # noqa: E402
 _DT = "src/odfdo/datatype.py"
 _CO = "src/odfdo/utils/color.py"
 SEEDS = [
+    Seed("DateTime.decode cleans the text up before parsing it", "fault", _DT,
+         "        try:\n            return datetime.fromisoformat(data)\n        except ValueError:\n            # maybe python 3.9",
+         "        if data.endswith(\"Z\"):\n            data = data[:-1] + \"+00:00\"\n        head, dot, fraction = data.partition(\".\")\n        if dot:\n            digits, plus, zone = fraction.partition(\"+\")\n            data = head + dot + digits[:6] + plus + zone\n        try:\n            return datetime.fromisoformat(data)\n        except ValueError:\n            # maybe python 3.9", "R18b"),
+    Seed("DateTime.decode parses a cleaned copy first", "fault", _DT,
+         "        try:\n            return datetime.fromisoformat(data)\n        except ValueError:\n            # maybe python 3.9",
+         "        try:\n            return datetime.fromisoformat(_iso_clean(data))\n        except ValueError:\n            # maybe python 3.9", "R18b",
+         edits=[(_DT, "class Boolean:", "def _iso_clean(text):\n    head, dot, fraction = text.partition(\".\")\n    digits, plus, zone = fraction.partition(\"+\")\n    return head + dot + digits[:6] + plus + zone if dot else text\n\n\nclass Boolean:")]),
     Seed("DateTime.encode formats the offset by hand with divmod", "fault", _DT,
          '        text = value.isoformat()\n        if text.endswith("+00:00"):\n            # convert to canonical representation\n            return text[:-6] + "Z"\n        return text',
          '        offset = value.utcoffset() if isinstance(value, datetime) else None\n        if offset is None:\n            return value.isoformat()\n        text = value.replace(tzinfo=None).isoformat()\n        hours, minutes = divmod(int(offset.total_seconds()) // 60, 60)\n        if not hours and not minutes:\n            return text + "Z"\n        return f"{text}{hours:+03d}:{minutes:02d}"', "R18b"),
